@@ -579,3 +579,330 @@ Example C11_surrogate_example :
   /\ run (ex_cfg true) [] 2 [false; false; false; false; false; false] = Some (Some [(0, 0); (0, 0); (1, 1)])
   /\ run (ex_cfg true) [] 2 [] = Some (Some [(0, 0); (1, 1); (2, 2)]).
 Proof. vm_compute. repeat split. Qed.
+
+(** ---- non-vacuity of the hypotheses (audit) ---- *)
+
+Definition nv_bs : box := [((-1) # 1, 1 # 1); (0 # 1, 1 # 2)]%Q.
+Definition nv_locs : list row := [[5 # 1; 7 # 1]; [(-3) # 1; (-2) # 1]]%Q.
+Definition nv_vals : list Q := [2 # 1; 1 # 1]%Q.
+Definition nv_sqrt : Q -> Q := (fun v => if Qle_bool v 0 then 0 else 1)%Q.
+Definition nv_tn : nat -> nat -> Q -> Q -> Q -> Q -> Q := (fun _ _ a _ loc s => loc + a * s)%Q.
+Definition nv_uni : nat -> nat -> Q -> Q -> Q := fun _ _ loc _ => loc.
+
+(** the hypotheses of C11_minimize_in_box, C11_start_points_in_box, C11_acquire_base_in_box,
+    C11_acquire_tiled_in_box, C11_acquire_uniform_in_box and C11_model_ok, together, on a 2-D box with
+    optimiser end points outside it *)
+Example C11_acquire_hyps_nonvacuous :
+  sqrt_nonneg nv_sqrt /\ tn_in_range nv_tn /\ uni_in_range nv_uni /\
+  wf_box nv_bs /\ nv_locs <> [] /\ length nv_locs = length nv_vals /\
+  Forall (fun l => length l = length nv_bs) nv_locs /\ (nth 0 nv_bs (0, 0) <> nth 1 nv_bs (0, 0))%Q.
+Proof.
+  destruct C11_oracles_exist as [A [B C]].
+  split; [exact C|]. split; [exact A|]. split; [exact B|].
+  split; [repeat constructor; vm_compute; discriminate|].
+  split; [discriminate|]. split; [reflexivity|]. split; [repeat constructor|].
+  vm_compute. intros E. inversion E.
+Qed.
+
+Example C11_acquire_base_in_box_nonvacuous :
+  length (acquire_base nv_sqrt nv_tn nv_bs (PerParam [1 # 4; 0 # 1]%Q) nv_locs nv_vals 3) = 3 /\
+  Forall (In_box nv_bs) (acquire_base nv_sqrt nv_tn nv_bs (PerParam [1 # 4; 0 # 1]%Q) nv_locs nv_vals 3).
+Proof.
+  destruct C11_acquire_hyps_nonvacuous as [A [B [C [D [E [F [G _]]]]]]].
+  now apply C11_acquire_base_in_box.
+Qed.
+
+Example C11_minimize_in_box_nonvacuous :
+  In_box nv_bs (minimize_post nv_bs nv_locs nv_vals) /\
+  Forall (fun x => in_box nv_bs x = true) (clip_starts nv_bs nv_locs) /\
+  Forall (In_box nv_bs) (acquire_tiled nv_bs nv_locs nv_vals 2) /\
+  Forall (In_box nv_bs) (acquire_uniform nv_uni nv_bs 2).
+Proof.
+  destruct C11_acquire_hyps_nonvacuous as [A [B [C [D [E [F [G _]]]]]]].
+  split; [now apply C11_minimize_in_box|].
+  split; [now apply C11_start_points_in_box|].
+  split; [now apply C11_acquire_tiled_in_box|now apply C11_acquire_uniform_in_box].
+Qed.
+
+(** C11_clip_in_range, C11_argmin_is_min, C11_noisy_coordinate_in_interval *)
+Example C11_clip_argmin_noisy_nonvacuous :
+  ((-1 # 1) <= (1 # 2))%Q /\ nv_vals <> [] /\ In (1 # 1)%Q nv_vals /\
+  (fst ((-1) # 1, 1 # 2) <= snd ((-1) # 1, 1 # 2))%Q /\ ~ (nv_sqrt (1 # 4) == 0)%Q.
+Proof.
+  repeat split; try (vm_compute; discriminate).
+  right; left; reflexivity.
+Qed.
+
+(** C11_randmaxvar_in_box: a chain of two states inside the box with non-zero MaxVar value *)
+Example C11_randmaxvar_in_box_nonvacuous :
+  let chain := [[0 # 1; 1 # 4]; [1 # 2; 1 # 2]]%Q in
+  let mv := fun x : row => (1 + nth 0 x 0)%Q in
+  Forall (fun x => rmv_logpdf nv_bs mv (fun q => q) x <> NegInf) chain /\
+  Forall (fun k => k < length chain) [1; 0; 1] /\
+  Forall (In_box nv_bs) (select chain [1; 0; 1]).
+Proof.
+  intros chain mv.
+  assert (H1 : Forall (fun x => rmv_logpdf nv_bs mv (fun q => q) x <> NegInf) chain)
+    by (repeat constructor; vm_compute; discriminate).
+  assert (H2 : Forall (fun k => k < length chain) [1; 0; 1]) by (repeat constructor).
+  split; [exact H1|split; [exact H2|]].
+  exact (proj2 (C11_randmaxvar_in_box nv_bs mv (fun q => q) chain [1; 0; 1] H1 H2)).
+Qed.
+
+(** C11_user_box_order_independent / C11_user_box_by_name: a two-key dict and its transposition *)
+Definition nv_dict : bdict := [(C11_names.nb, (5 # 1, 6 # 1)); (C11_names.na, ((-2) # 1, 3 # 1))]%Q.
+Definition nv_names : list String.string := [C11_names.na; C11_names.nb].
+Example C11_user_box_nonvacuous :
+  NoDup (map fst nv_dict) /\ Permutation nv_dict (rev nv_dict) /\ nv_dict <> rev nv_dict /\
+  box_of nv_names nv_dict = Some [((-2) # 1, 3 # 1); (5 # 1, 6 # 1)]%Q /\ length nv_names <> 1 /\
+  nth_error nv_names 1 = Some C11_names.nb /\
+  box_of nv_names nv_dict = box_of nv_names (rev nv_dict).
+Proof.
+  assert (N : NoDup (map fst nv_dict)).
+  { repeat constructor; simpl; intros H; repeat (destruct H as [H|H]; try discriminate H); exact H. }
+  assert (P : Permutation nv_dict (rev nv_dict)) by (simpl; apply perm_swap).
+  split; [exact N|]. split; [exact P|]. split; [discriminate|]. split; [reflexivity|].
+  split; [discriminate|]. split; [reflexivity|].
+  exact (C11_user_box_order_independent nv_names _ _ N P).
+Qed.
+
+(** C11_acquired_in_named_interval: an acquire call (MaxVar: tiled) with two points of the user's box,
+    the dict written b first *)
+Definition nv_acq_case : Acq.case :=
+  {| a_kind := KTiled; a_names := nv_names; a_dict := nv_dict; a_mbounds := [((-2) # 1, 3 # 1); (5 # 1, 6 # 1)]%Q;
+     a_n := 2; a_locs := [[7 # 1; 7 # 1]]%Q; a_vals := [0 # 1]%Q; a_sqrt := []; a_tn := []; a_tn_ab := []; a_uni := [];
+     a_out := [[3 # 1; 6 # 1]; [3 # 1; 6 # 1]]%Q |}.
+Example C11_acquired_in_named_interval_nonvacuous :
+  Acq.ok nv_acq_case = true /\ Acq.agree nv_acq_case = true /\ length (a_names nv_acq_case) <> 1 /\
+  In [3 # 1; 6 # 1]%Q (a_out nv_acq_case) /\ nth_error (a_names nv_acq_case) 1 = Some C11_names.nb.
+Proof. vm_compute. repeat split; try discriminate. left; reflexivity. Qed.
+
+(** C11_bo_rows_in_named_interval, C11_ok_sound: a run of three batches (one from the prior, two
+    acquired) whose observations are those of the model *)
+Definition nv_bo_cfg : cfg :=
+  {| c_b := 1; c_bpa := 1; c_ninit := 1; c_npre := 0; c_upd := 1; c_async := false; c_nev := 3 |}.
+Definition nv_k0 : bo_case :=
+  {| k_cfg := nv_bo_cfg; k_maxp := 2; k_names := nv_names; k_dict := nv_dict;
+     k_mbounds := [((-2) # 1, 3 # 1); (5 # 1, 6 # 1)]%Q; k_pre := []; k_oracle := [false; true; false];
+     k_acq_tab := [[[1 # 1; 5 # 1]]; [[(-2) # 1; 6 # 1]]]%Q;
+     k_batches := [[([0 # 1; 11 # 2], 1 # 1)]; [([1 # 1; 5 # 1], 2 # 1)]; [([(-2) # 1; 6 # 1], 3 # 1)]]%Q;
+     k_trace := []; k_X := []; k_nev := 0; k_nbatches := 0; k_lastgp := 0; k_acqlog := []; k_optlog := [];
+     k_supplied := [] |}.
+Definition nv_k : bo_case :=
+  match bo_model nv_k0 with
+  | inl (s, tr) =>
+      {| k_cfg := k_cfg nv_k0; k_maxp := k_maxp nv_k0; k_names := k_names nv_k0; k_dict := k_dict nv_k0;
+         k_mbounds := k_mbounds nv_k0; k_pre := k_pre nv_k0; k_oracle := k_oracle nv_k0;
+         k_acq_tab := k_acq_tab nv_k0; k_batches := k_batches nv_k0;
+         k_trace := tr; k_X := ev (es s); k_nev := n_ev (es s); k_nbatches := nb (es s);
+         k_lastgp := last_gp (es s); k_acqlog := acqlog (qs s); k_optlog := optlog (es s);
+         k_supplied := clog s |}
+  | inr _ => nv_k0
+  end.
+Example C11_bo_rows_in_named_interval_nonvacuous :
+  bo_ok nv_k = true /\ bo_agree nv_k = true /\ BoCase.ok (CBo nv_k) = true /\ length (k_names nv_k) <> 1 /\
+  In [[1 # 1; 5 # 1]]%Q (k_acq_tab nv_k) /\ In (2, Some [[(-2) # 1; 6 # 1]]%Q) (k_supplied nv_k) /\
+  k_nbatches nv_k = 3 /\ nth_error (k_names nv_k) 0 = Some C11_names.na.
+Proof. vm_compute. repeat split; try discriminate; auto. Qed.
+
+(** the scheduler theorems of part 2 on a toy target over nat: the acquisition answers depend on the
+    evidence it is shown but stay <= 7; every batch returns exactly batch_size = 1 row *)
+Definition nv_acq (_ : unit) (e : list (nat * nat)) (n : nat) (_ : Z) : list nat * unit :=
+  (repeat (Nat.min (length e + 3) 7) n, tt).
+Definition nv_compute1 (i : nat) (p : option (list nat)) : list (nat * nat) :=
+  [(match p with Some (r :: _) => r | _ => 0 end, i)].
+Definition nv_cfg (async : bool) : cfg :=
+  {| c_b := 1; c_bpa := 1; c_ninit := 2; c_npre := 1; c_upd := 1; c_async := async; c_nev := 4 |}.
+
+(** C11_evidence_bookkeeping (1 <= maxp), C11_n_evidence_counts_rows, C11_supplied_rows: all the
+    hypotheses, asynchronous acquisition, max_parallel 2, one precomputed row, three batches *)
+Example C11_bo_schedule_hyps_nonvacuous :
+  1 <= 2 /\ (forall i p, length (nv_compute1 i p) = c_b (nv_cfg true)) /\
+  c_npre (nv_cfg true) = Z.of_nat (length [(9, 9)]) /\
+  (forall a e n t, Forall (fun p => p <= 7) (fst (nv_acq a e n t))) /\
+  (forall a e n t, length (fst (nv_acq a e n t)) = n) /\
+  1 <= c_bpa (nv_cfg true) /\
+  exists s tr,
+    infer nat nat unit nv_acq nv_compute1 (nv_cfg true) 10 2 (sched0 nat nat unit (nv_cfg true) [(9, 9)] tt)
+          [false; true; false] [] = inl (s, tr) /\
+    clog s = [(0, None); (1, Some [4]); (2, Some [6])] /\ ev (es s) = [(9, 9); (0, 0); (4, 1); (6, 2)].
+Proof.
+  split; [auto|]. split; [reflexivity|]. split; [reflexivity|].
+  split. { intros a e n t. apply Forall_forall. intros x Hx. apply repeat_spec in Hx. subst x. apply Nat.le_min_r. }
+  split. { intros. apply repeat_length. }
+  split; [auto|].
+  eexists. eexists. vm_compute. split; [reflexivity|split; reflexivity].
+Qed.
+
+(** C11_sync_schedule_independent, C11_sync_acquisitions_see_index_evidence,
+    C11_surrogate_evidence_schedule_independent, C11_surrogate_evidence_two_schedules: the sequential
+    run succeeds; (the conclusion instantiated: two schedules, one store) *)
+Example C11_sync_hyps_nonvacuous :
+  c_async (nv_cfg false) = false /\ (forall i p, length (nv_compute1 i p) = c_b (nv_cfg false)) /\
+  exists ef qf lgf,
+    seq_run nat nat unit nv_acq nv_compute1 (nv_cfg false) 10 (estate0 nat nat (nv_cfg false) [(9, 9)])
+            (qstate0 nat unit tt) 0 [] = Some (ef, qf, 3, lgf) /\
+    lgf = [(0, None); (1, Some [5]); (2, Some [6])] /\ ev ef = [(9, 9); (0, 0); (5, 1); (6, 2)] /\
+    exists g, bo_surrogate nat nat unit nv_acq nv_compute1 (nv_cfg false) 10 1 [(9, 9)] tt [] = Some g /\
+              bo_surrogate nat nat unit nv_acq nv_compute1 (nv_cfg false) 10 3 [(9, 9)] tt [false; false; true] = Some g /\
+              gp_X g = map fst (ev ef) /\ gp_Y g = map snd (ev ef).
+Proof.
+  split; [reflexivity|]. split; [reflexivity|].
+  eexists. eexists. eexists.
+  split; [vm_compute; reflexivity|]. split; [reflexivity|]. split; [reflexivity|].
+  eapply C11_surrogate_evidence_two_schedules with (n := 3); try reflexivity; auto.
+Qed.
+
+(** C11_iterate_feeds_one_update: one scheduler iteration from the initial state *)
+Example C11_iterate_nonvacuous :
+  exists s' orc' tr',
+    iterate nat nat unit nv_acq nv_compute1 (nv_cfg true) 2 (sched0 nat nat unit (nv_cfg true) [(9, 9)] tt)
+            [false; true] [] = inl (s', orc', tr') /\ clog s' = [(0, None)] /\ pend s' <> [].
+Proof. eexists. eexists. eexists. vm_compute. split; [reflexivity|split; [reflexivity|discriminate]]. Qed.
+
+(** C11_surrogate_evidence_in_box, C11_surrogate_evidence_in_box_no_prior, C11_surrogate_X_is_simulated:
+    rows over Q in the user's box built from [nv_dict]; the acquisition answers with a point whose first
+    coordinate is the (clipped) number of evidence rows it was shown; the simulator echoes its rows; one
+    precomputed row, one batch from the prior (n_initial 2 > n_precomputed 1), two acquired batches *)
+Definition nv_ubox : box := [((-2) # 1, 3 # 1); (5 # 1, 6 # 1)]%Q.
+Definition nv_qacq (a : nat) (e : list (row * Q)) (n : nat) (_ : Z) : list row * nat :=
+  (repeat [clip ((-2) # 1) (3 # 1) (inject_Z (Z.of_nat (length e)) - (3 # 2)); 11 # 2]%Q n, S a).
+Definition nv_qcompute (i : nat) (p : option (list row)) : list (row * Q) :=
+  match p with None => [([0 # 1; 6 # 1], 1 # 1)]%Q | Some rows => map (fun r => (r, inject_Z (Z.of_nat i))) rows end.
+Definition nv_qpre : list (row * Q) := [([3 # 1; 5 # 1], 7 # 1)]%Q.
+
+Example C11_surrogate_evidence_in_box_nonvacuous :
+  box_of nv_names nv_dict = Some nv_ubox /\
+  (forall a e n t, Forall (In_box nv_ubox) (fst (nv_qacq a e n t))) /\
+  (forall a e n t, length (fst (nv_qacq a e n t)) = n) /\
+  1 <= c_bpa (nv_cfg true) /\
+  (forall i rows, map fst (nv_qcompute i (Some rows)) = rows) /\
+  1 <= 2 /\ Forall (In_box nv_ubox) (map fst nv_qpre) /\
+  (forall i, (acq_index (nv_cfg true) i < 0)%Z -> Forall (In_box nv_ubox) (map fst (nv_qcompute i None))) /\
+  (acq_index (nv_cfg true) 0 < 0)%Z /\ length nv_names <> 1 /\
+  exists s tr,
+    infer row Q nat nv_qacq nv_qcompute (nv_cfg true) 10 2 (sched0 row Q nat (nv_cfg true) nv_qpre 0)
+          [false; true; false] [] = inl (s, tr) /\
+    map fst (clog s) = [0; 1; 2] /\
+    gp_X (surrogate_after row Q nv_qcompute nv_qpre (clog s)) =
+      [[3 # 1; 5 # 1]; [0 # 1; 6 # 1]; [(-1) # 2; 11 # 2]; [3 # 2; 11 # 2]]%Q.
+Proof.
+  split; [reflexivity|].
+  split. { intros a e n t. apply Forall_forall. intros x Hx. apply repeat_spec in Hx. subst x.
+           constructor; [|constructor; [|constructor]].
+           - apply C11_clip_in_range. vm_compute; discriminate.
+           - split; vm_compute; discriminate. }
+  split. { intros. apply repeat_length. }
+  split; [auto|].
+  split. { intros i rows. simpl. rewrite map_map. simpl. apply map_id. }
+  split; [auto|].
+  split. { repeat constructor; vm_compute; discriminate. }
+  split. { intros i _. repeat constructor; vm_compute; discriminate. }
+  split; [reflexivity|]. split; [discriminate|].
+  eexists. eexists. split; [vm_compute; reflexivity|]. split; vm_compute; reflexivity.
+Qed.
+
+(** the same with n_initial_evidence <= n_precomputed (no batch from the prior) and batch_size 1 *)
+Example C11_surrogate_evidence_in_box_no_prior_nonvacuous :
+  1 <= c_b (nv_bo_cfg) /\
+  let c := {| c_b := 1; c_bpa := 1; c_ninit := 1; c_npre := 1; c_upd := 1; c_async := false; c_nev := 3 |} in
+  1 <= c_bpa c /\ 1 <= c_b c /\ (c_ninit c <= c_npre c)%Z /\
+  exists s tr,
+    infer row Q nat nv_qacq nv_qcompute c 10 2 (sched0 row Q nat c nv_qpre 0) [false; true] [] = inl (s, tr) /\
+    gp_X (surrogate_after row Q nv_qcompute nv_qpre (clog s)) = [[3 # 1; 5 # 1]; [(-1) # 2; 11 # 2]; [1 # 2; 11 # 2]]%Q.
+Proof.
+  split; [auto|]. intros c. split; [auto|]. split; [auto|]. split; [vm_compute; discriminate|].
+  eexists. eexists. split; vm_compute; reflexivity.
+Qed.
+
+(** C11_surrogate_evidence_in_box_lcbsc: the optimiser's end points (outside the box) depend on the evidence *)
+Definition nv_opt (a : nat) (e : list (row * Q)) (n : nat) (_ : Z) : list row * list Q * nat :=
+  ([[inject_Z (Z.of_nat (length e)); 7 # 1]; [(-3) # 1; (-2) # 1]]%Q, [1 # 1; 2 # 1]%Q, S a).
+Example C11_surrogate_evidence_in_box_lcbsc_nonvacuous :
+  wf_box nv_ubox /\
+  (forall a e n t, let '(locs, vals, _) := nv_opt a e n t in
+                   locs <> [] /\ length locs = length vals /\ Forall (fun l => length l = length nv_ubox) locs) /\
+  exists s tr,
+    infer row Q nat (acq_lcbsc Q nat nv_sqrt nv_tn nv_ubox (PerParam [0 # 1; 1 # 4]%Q) nv_opt) nv_qcompute (nv_cfg true) 10 2
+          (sched0 row Q nat (nv_cfg true) nv_qpre 0) [false; true; false] [] = inl (s, tr) /\
+    gp_X (surrogate_after row Q nv_qcompute nv_qpre (clog s)) =
+      [[3 # 1; 5 # 1]; [0 # 1; 6 # 1]; [1 # 1; 5 # 1]; [3 # 1; 5 # 1]]%Q.
+Proof.
+  split. { repeat constructor; vm_compute; discriminate. }
+  split. { intros a e n t. simpl. split; [discriminate|split; [reflexivity|repeat constructor]]. }
+  eexists. eexists. split; vm_compute; reflexivity.
+Qed.
+
+(** C11_lcbsc_gradient_is_derivative, C11_lcb_derivative: mu y = 3 y, v y = y * y, k y = y at x = 2, beta = 5 *)
+Example C11_lcbsc_derivative_nonvacuous :
+  let mu := (fun y => 3 * y)%R in let v := (fun y => y * y)%R in let k := (fun y : R => y) in
+  let mu' := (fun _ : R => 3)%R in let v' := (fun y => 2 * y)%R in let k' := (fun _ : R => 1)%R in
+  (0 < 5)%R /\ (0 < v 2)%R /\ is_derive mu 2%R (mu' 2%R) /\ is_derive v 2%R (v' 2%R) /\ is_derive k 2%R (k' 2%R).
+Proof.
+  intros mu v k mu' v' k'. unfold mu, v, k, mu', v', k'.
+  split; [apply (IZR_lt 0 5); reflexivity|].
+  split; [apply Rmult_lt_0_compat; apply (IZR_lt 0 2); reflexivity|].
+  split; [auto_derive; [exact I|ring]|]. split; [auto_derive; [exact I|ring]|]. auto_derive; [exact I|ring].
+Qed.
+
+(** C11_step_model_function: two steps with the same surrogate outputs and different observations *)
+Example C11_step_model_function_nonvacuous :
+  let sq := [(4 # 1, 2 # 1); (1 # 1, 1 # 1); (16 # 1, 4 # 1); (1 # 4, 1 # 2)]%Q in
+  let mk := fun ov og => {| h_beta := 2 # 1; h_mean := 0 # 1; h_var := 8 # 1; h_gmean := [1 # 1]; h_gvar := [2 # 1]; h_sqrt := sq;
+               h_val := ov; h_grad := og; h_fval := (-4) # 1; h_fgrad := [1 # 2]; h_fd := [1 # 2]; h_fd2 := [1 # 2]; h_aux := [] |}%Q in
+  let s1 := mk (Some ((-4) # 1)%Q) (Some [1 # 2]%Q) in let s2 := mk (Some ((-1) # 1)%Q) None in
+  s1 <> s2 /\ h_beta s1 = h_beta s2 /\ h_mean s1 = h_mean s2 /\ h_var s1 = h_var s2 /\
+  h_gmean s1 = h_gmean s2 /\ h_gvar s1 = h_gvar s2 /\ h_sqrt s1 = h_sqrt s2.
+Proof. simpl. repeat split; discriminate. Qed.
+
+(** C11_history_ok_sound / C11_step_gradient_is_formula / C11_ok_sound (CHist): a two-step history with a
+    two-parameter user box and two acquire calls along the way *)
+Example C11_history_ok_nonvacuous :
+  let sq := [(4 # 1, 2 # 1); (1 # 1, 1 # 1); (16 # 1, 4 # 1); (1 # 4, 1 # 2)]%Q in
+  let aux := [{| x_h := 1 # 100000; x_rough := 0; x_sm := 1 # 1; x_sv := 2 # 1; x_sm2 := 1 # 1; x_sv2 := 2 # 1 |}]%Q in
+  let s1 := {| h_beta := 2 # 1; h_mean := 1 # 1; h_var := 2 # 1; h_gmean := [1 # 1]; h_gvar := [2 # 1]; h_sqrt := sq;
+               h_val := Some ((-1) # 1); h_grad := Some [0 # 1]; h_fval := (-1) # 1; h_fgrad := [0 # 1]; h_fd := [0 # 1]; h_fd2 := [0 # 1]; h_aux := aux |}%Q in
+  let s2 := {| h_beta := 2 # 1; h_mean := 0 # 1; h_var := 8 # 1; h_gmean := [1 # 1]; h_gvar := [2 # 1]; h_sqrt := sq;
+               h_val := Some ((-4) # 1); h_grad := Some [1 # 2]; h_fval := (-4) # 1; h_fgrad := [1 # 2]; h_fd := [1 # 2]; h_fd2 := [1 # 2]; h_aux := aux |}%Q in
+  let h := {| hs_names := nv_names; hs_dict := nv_dict; hs_mbounds := nv_ubox; hs_steps := [s1; s2];
+              hs_acq := [(1, [[3 # 1; 5 # 1]]%Q); (2, [[(-2) # 1; 6 # 1]; [0 # 1; 11 # 2]]%Q)] |} in
+  hist_ok h = true /\ BoCase.ok (CHist h) = true /\ step_ok s2 = true /\ h_grad s2 = Some [1 # 2]%Q.
+Proof. vm_compute. auto. Qed.
+
+(** C11_ok_sound on a gradient case (beta 2, mean 0, variance 8: value -4, gradient 1 - 1/2 * 2 * 1/2) *)
+Example C11_ok_sound_grad_nonvacuous :
+  BoCase.ok (CGrad {| g_beta := 2 # 1; g_mean := 0 # 1; g_var := 8 # 1; g_gmean := 1 # 1; g_gvar := 2 # 1;
+                      g_sqrt := [(16 # 1, 4 # 1); (1 # 4, 1 # 2)]; g_val := (-4) # 1; g_grad := 1 # 2 |}%Q) = true.
+Proof. vm_compute. reflexivity. Qed.
+
+(** C11_randmaxvar_metropolis_in_box over binary64: box [0, 1], start 0.5 (finite density), proposal
+    steps 0.25 * 1 (accepted: inside) and 0.25 * 4 (outside the box: density -inf, rejected) *)
+Module C11_nv_float.
+Import PrimFloat.
+Definition fbs : fbox := [(0%float, 1%float)].
+Definition fmaxvar (v : vec) : float := 2%float.
+Definition flog (x : float) : float := x.
+Definition fexp (x : float) : float := 1%float.
+Example C11_randmaxvar_metropolis_in_box_nonvacuous :
+  is_finite (rmv_logpdf_f fbs fmaxvar flog [0.5%float]) = true /\
+  metropolis (rmv_logpdf_f fbs fmaxvar flog) fexp [0.25%float] 2 0 [0.5%float]
+             [DN [1%float]; DU 0.5%float; DN [4%float]; DU 0.5%float] = Chain [[0.75%float]; [0.75%float]] /\
+  Forall (fun x => in_box_f fbs x = true) (select [[0.75%float]; [0.75%float]] [1; 0]).
+Proof.
+  assert (A : is_finite (rmv_logpdf_f fbs fmaxvar flog [0.5%float]) = true) by (vm_compute; reflexivity).
+  assert (B : metropolis (rmv_logpdf_f fbs fmaxvar flog) fexp [0.25%float] 2 0 [0.5%float]
+             [DN [1%float]; DU 0.5%float; DN [4%float]; DU 0.5%float] = Chain [[0.75%float]; [0.75%float]])
+    by (vm_compute; reflexivity).
+  split; [exact A|]. split; [exact B|].
+  exact (C11_randmaxvar_metropolis_in_box _ _ _ _ _ _ _ _ _ _ [1; 0] A B).
+Qed.
+End C11_nv_float.
+
+(** C11_model_ok instantiated on the instance of C11_acquire_hyps_nonvacuous *)
+Example C11_model_ok_nonvacuous :
+  let out := acquire_base nv_sqrt nv_tn nv_bs (Scalar (1 # 4)%Q) nv_locs nv_vals 3 in
+  Nat.eqb (length out) 3 && forallb (in_box nv_bs) out = true.
+Proof.
+  destruct C11_acquire_hyps_nonvacuous as [A [B [C [D [E [F [G _]]]]]]].
+  exact (C11_model_ok nv_sqrt nv_tn nv_uni (KBase (Scalar (1 # 4)%Q)) nv_bs 3 nv_locs nv_vals A B C D E F G).
+Qed.
